@@ -194,7 +194,7 @@ void _mutual_information(float *anomaly, int n_samples,
 // rainfall ===================================================================
 
 
-void _spearman_corr(int m, int tmax, int *final_mask,
+void _spearman_corr(int m, int tmax, signed char *final_mask,
     float *time_series_ranked, float *spearman_rho)  {
 
     double cov = 0, sigmai = 0, sigmaj = 0, meani = 0, meanj = 0;
